@@ -740,6 +740,8 @@ pub struct PreemptPair {
     pub victim: Vec<Op>,
     pub intruder: Vec<Op>,
     pub systematic: bool,
+    /// one of the core worlds (swept in both tiers; in thorough also with the intruder parked mid-build)
+    pub core: bool,
     /// the victim's first `skip_ops` operations are not swept (used for histories whose last operation re-does a
     /// build: only the visits of the repeated build are of interest)
     pub skip_ops: usize,
@@ -787,6 +789,7 @@ fn pair_plain(v: &[&str], i: &[&str], cv: &[Setter], ci: &[Setter]) -> PreemptPa
         victim: plain_build(strs(v), cv.to_vec()),
         intruder: plain_build(strs(i), ci.to_vec()),
         systematic: true,
+        core: false,
         skip_ops: 0,
         mailboxes: 0,
     }
@@ -807,6 +810,7 @@ fn pair_rebuild(v: &[&str], i: &[&str], c: &[Setter], on_clone: bool) -> Preempt
         victim,
         intruder: plain_build(strs(i), c.to_vec()),
         systematic: true,
+        core: false,
         skip_ops: skip,
         mailboxes: 0,
     }
@@ -825,6 +829,7 @@ fn pair_shared(v: &[&str], c: &[Setter], extra: Setter) -> PreemptPair {
         victim,
         intruder: vec![Op::Recv { slot: 0, mailbox: 0 }, Op::Set { slot: 0, setter: extra }, Op::Build { slot: 0 }],
         systematic: true,
+        core: false,
         skip_ops: skip,
         mailboxes: 1,
     }
@@ -857,6 +862,9 @@ fn preempt_pairs_raw(verif_seed: u64, tier: &str) -> Vec<PreemptPair> {
         pair_shared(&["a1", "b2"], &w, Setter::IgnoreCase),
         pair_plain(&["1a\u{663}"], &["\u{663}", "7"], &d, &d),
     ];
+    for p in out.iter_mut() {
+        p.core = true;
+    }
     if tier == "thorough" {
         let victims: [&[&str]; 7] = [&["a1"], &["1a"], &["aZ"], &["a 1"], &["1:a"], &["a", "b", "c"], &["a", "aa", "ab"]];
         let intruders: [&[&str]; 5] = [&[":", "["], &["a"], &["1", " "], &["\u{e1}", "\u{e2}", "\u{e3}"], &["x", "xx", "xy"]];
@@ -898,6 +906,7 @@ fn preempt_pairs_raw(verif_seed: u64, tier: &str) -> Vec<PreemptPair> {
             victim: plain_build(victim, cv),
             intruder: plain_build(intruder, ci),
             systematic: false,
+            core: false,
             skip_ops: 0,
             mailboxes: 0,
         });
